@@ -334,7 +334,7 @@ def _solve_atomic(ob, timeout_s=60, second=False, seed=0, parent=None):
                     res['status'] = 'discharged'; res['backend'] = 'ring-normal-form'; res['time'] = round(time.time() - t0, 3); res['sublog'] = log
                     if second:
                         zz, cons = build_query(ob, log); s_ = z3.Solver(); s_.add(*cons)
-                        o = run_cli([Z3_OLD, '-T:%d' % int(timeout_s)], s_.to_smt2(), timeout_s) if os.path.exists(Z3_OLD) else 'n/a'
+                        o = run_cli([Z3_OLD, '-T:%d' % int(min(timeout_s, 60))], s_.to_smt2(), min(timeout_s, 60)) if os.path.exists(Z3_OLD) else 'n/a'
                         res['second'] = dict(backend='z3-4.8.12(cli)', answer=o)
                         if o == 'sat': res['status'] = 'disagree'; res['detail'] = 'ring normal form says identity, z3 4.8.12 says sat'
                     return res
@@ -394,7 +394,7 @@ def _solve_atomic(ob, timeout_s=60, second=False, seed=0, parent=None):
             if o == 'unsat': r = z3.unsat; backend = 'cvc5-1.0.3(cli)'
         res['backend'] = backend
         if second and r != z3.unknown and os.path.exists(Z3_OLD):
-            o = run_cli([Z3_OLD, '-T:%d' % int(timeout_s)], smt2, timeout_s)
+            o = run_cli([Z3_OLD, '-T:%d' % int(min(timeout_s, 60))], smt2, min(timeout_s, 60))
             res['second'] = dict(backend='z3-4.8.12(cli)', answer=o)
             if o in ('sat', 'unsat') and o != str(r):
                 res['status'] = 'disagree'; res['detail'] = "back ends disagree: %s vs %s" % (r, o)
